@@ -59,17 +59,25 @@ Notation "'doo' x <- e ; f" := (obind e (fun x => f))
 
 (** Left-to-right traversal that stops at the first non-Ok outcome
     (Iterator::collect::<Result<Vec<_>,_>>). *)
-Fixpoint mapM {A B} (f : A -> M B) (l : list A) : M (list B) :=
-  match l with
-  | [] => ret []
-  | x :: xs => bind (f x) (fun y => bind (mapM f xs) (fun ys => ret (y :: ys)))
-  end.
+Section MapM.
+  Context {A B : Type}.
+  Variable f : A -> M B.
+  Fixpoint mapM (l : list A) : M (list B) :=
+    match l with
+    | [] => ret []
+    | x :: xs => bind (f x) (fun y => bind (mapM xs) (fun ys => ret (y :: ys)))
+    end.
+End MapM.
 
-Fixpoint omapM {A B} (f : A -> outcome B) (l : list A) : outcome (list B) :=
-  match l with
-  | [] => Ok []
-  | x :: xs => obind (f x) (fun y => obind (omapM f xs) (fun ys => Ok (y :: ys)))
-  end.
+Section OMapM.
+  Context {A B : Type}.
+  Variable f : A -> outcome B.
+  Fixpoint omapM (l : list A) : outcome (list B) :=
+    match l with
+    | [] => Ok []
+    | x :: xs => obind (f x) (fun y => obind (omapM xs) (fun ys => Ok (y :: ys)))
+    end.
+End OMapM.
 
 (** Positional access [items[i]]: a panic when out of bounds. *)
 Definition idx {A} (l : list A) (i : nat) : outcome A :=
